@@ -92,7 +92,7 @@ fn arb_hist_operand() -> BoxedStrategy<Operand> {
 }
 
 fn arb_hint() -> impl Strategy<Value = Hint> {
-    prop_oneof![Just(Hint::Exact), Just(Hint::Zero), Just(Hint::Partial)]
+    prop_oneof![Just(Hint::Exact), Just(Hint::Zero), Just(Hint::Partial), Just(Hint::LooseUpper)]
 }
 
 fn arb_small_bits() -> impl Strategy<Value = Bits> {
@@ -182,7 +182,7 @@ fn arb_history(mode: Mode, tier: Tier) -> BoxedStrategy<History> {
         Mode::Capacity => tier.pick(14, 40),
     };
     let tid = match mode {
-        Mode::Capacity => prop_oneof![2 => (0usize..20).prop_map(|i| ROUTINE_FIXED[i]), 5 => Just(TID_D), 6 => Just(TID_A)].boxed(),
+        Mode::Capacity => prop_oneof![2 => (0usize..26).prop_map(|i| ROUTINE_FIXED[i]), 5 => Just(TID_D), 6 => Just(TID_A)].boxed(),
         _ => arb_tid().boxed(),
     };
     (tid, arb_init(), vec(arb_op(mode, tier), 1..maxops)).prop_map(|(ty, init, ops)| History { ty, init, ops }).boxed()
@@ -290,6 +290,7 @@ fn small_alphabet(with_cap_ops: bool) -> Vec<Op> {
         Op::Prepend(Operand::canon(9, Bits::new())),
         Op::Insert(32768, ones(5, 3)),
         Op::Extend(Bits::ones(10), Hint::Partial),
+        Op::Extend(Bits::ones(9), Hint::LooseUpper),
         Op::SplitOffKeepLow(32768),
         Op::SplitOffKeepHigh(32768),
         Op::CopyRange(8000, 60000),
@@ -377,7 +378,7 @@ impl Property for C03 {
         arb_history(Mode::All, tier)
     }
     fn exhaustive_subspaces(&self, tier: Tier) -> Vec<String> {
-        vec![format!("all histories of length 1 and 2{} over a 46-operation alphabet (every operation family, capacity operations included) from 14 boundary start lengths {{0,1,7,8,9,15,16,17,63,64,65,127,128,129}} on {}", if tier == Tier::Thorough { " and 3" } else { "" }, if tier == Tier::Thorough { "Bvf<u8,2>, Bvf<u8,17>, Bvf<u64,2>, Bvf<u128,2>, Bvd, Bv" } else { "Bvf<u8,2>, Bvf<u64,2>, Bvf<u8,17>, Bvd, Bv" })]
+        vec![format!("all histories of length 1 and 2{} over a 47-operation alphabet (every operation family, capacity operations included) from 14 boundary start lengths {{0,1,7,8,9,15,16,17,63,64,65,127,128,129}} on {}", if tier == Tier::Thorough { " and 3" } else { "" }, if tier == Tier::Thorough { "Bvf<u8,2>, Bvf<u8,17>, Bvf<u64,2>, Bvf<u128,2>, Bvd, Bv" } else { "Bvf<u8,2>, Bvf<u64,2>, Bvf<u8,17>, Bvd, Bv" })]
     }
     fn enumerate(&self, tier: Tier, sh: &mut Shard, f: &mut dyn FnMut(History) -> bool) {
         if tier == Tier::Thorough {
@@ -430,7 +431,7 @@ impl Property for C07 {
         "C07"
     }
     fn rule(&self) -> String {
-        "Cases (stateful): subject type, initial constructor, then 1..15 (quick)/1..50 (thorough) editing operations: push, pop, set, resize up/down, truncate (also beyond the length), sign_extend (also below the length), append/prepend/insert with an operand of ANY zoo type, length (0 included) and provenance, extend from iterators with exact / zero / partial size hints, collect. For Bvd/Bv the length wanders across 64-bit word boundaries and the 128-bit inline limit in both directions. Oracle: Vec<bool> edits; after each step exact length, bits and the light battery, full battery periodically and at the end; pop's return value. Non-trivial: >= 1 growth crossing a storage-word or inline/heap boundary, >= 1 shrink, and >= 1 append/prepend/insert whose operand type differs from the subject's. Distinct by hash of the history.".into()
+        "Cases (stateful): subject type, initial constructor, then 1..15 (quick)/1..50 (thorough) editing operations: push, pop, set, resize up/down, truncate (also beyond the length), sign_extend (also below the length), append/prepend/insert with an operand of ANY zoo type, length (0 included) and provenance, extend from iterators with exact / zero / partial / astronomically loose size hints, collect. For Bvd/Bv the length wanders across 64-bit word boundaries and the 128-bit inline limit in both directions. Oracle: Vec<bool> edits; after each step exact length, bits and the light battery, full battery periodically and at the end; pop's return value. Non-trivial: >= 1 growth crossing a storage-word or inline/heap boundary, >= 1 shrink, and >= 1 append/prepend/insert whose operand type differs from the subject's. Distinct by hash of the history.".into()
     }
     fn random_cases(&self, tier: Tier) -> u64 {
         tier.pick(120000, 4800000)
